@@ -34,6 +34,8 @@ type refStream struct {
 	hdrsDone  bool // the request header block is complete
 	endSeen   bool // END_STREAM seen (possibly before END_HEADERS)
 	byReset   bool // closed by RST_STREAM (either side)
+	byUs      bool // the server itself reset it: what was in flight then is to be ignored (5.1)
+	discard   bool // a header block on such a stream is open: it is decoded and dropped
 	implicit  bool // never used, closed by the first use of a higher id (5.1.1)
 }
 
@@ -97,6 +99,10 @@ func (c *refConn) refStep(k int, id uint32, arg uint32) (allowed int, code Error
 		}
 		c.contOn = 0
 		c.sawCont = true
+		if s.discard {
+			s.discard = false
+			return rxNone | rxStreamErr | rxConnErr, StreamClosedError
+		}
 		s.blockOpen = false
 		if s.hdrsDone { // it was a trailer block
 			return c.finishMessage(s)
@@ -156,6 +162,15 @@ func (c *refConn) refStep(k int, id uint32, arg uint32) (allowed int, code Error
 				// (PROTOCOL_ERROR); 5.1 calls the stream closed
 				return rxStreamErr | rxConnErr, 0
 			}
+			if s.byUs {
+				// trailers that were on their way when the server reset the
+				// stream: ignoring them is what 5.1 asks for (their block is
+				// still a block: CONTINUATION frames may follow)
+				if !eh {
+					s.discard, c.contOn = true, id
+				}
+				return rxNone | rxStreamErr | rxConnErr, StreamClosedError
+			}
 			c.maybeDead()
 			return rxStreamErr | rxConnErr, StreamClosedError
 		}
@@ -177,6 +192,9 @@ func (c *refConn) refStep(k int, id uint32, arg uint32) (allowed int, code Error
 				s.st, s.byReset = rsClosed, true
 			}
 			c.maybeDead()
+			if s.byUs {
+				return rxNone | rxStreamErr | rxConnErr, StreamClosedError
+			}
 			return rxStreamErr | rxConnErr, StreamClosedError
 		}
 	case fkRst:
@@ -343,6 +361,7 @@ func VerifH_C08_seq() {
 		if got == rxStreamErr && allowed&rxStreamErr != 0 {
 			// the stream is closed now
 			ref.s[int(id/2)].st = rsClosed
+			ref.s[int(id/2)].byUs = true
 		}
 	}
 	// release the handlers that are still running; nothing may go wrong then
